@@ -116,13 +116,13 @@ def run(repo):
     s += "-/\n\n"
     s += "/-- huffman/data/frequencies -/\ndef frequencies : List Nat := %s\n\n" % exlib.lean_nat_list(freq)
     consts = file_consts(lib)
-    s += ("/- Integer constants of the modelled functions as *sorted multisets*: integer literals plus\n"
+    s += ("/- Integer constants of the modelled functions as *sorted sets of significant numbers* (0 and 1 dropped): integer literals plus\n"
           "file-level `const`s resolved to their values; a closure defined inside the function, or a private\n"
           "helper that did not exist when the model was written, contributes its constants once per call\n"
           "site.  Order, names of locals and the extraction of a repeated statement into a closure/helper\n"
           "therefore do not change these lists; a changed, added or removed constant does. -/\n")
     for fn in ("compress_impl_unsafe", "decompress_unsafe", "to_symbol_repr", "to_node"):
         body = exlib.fn_body(lib, fn, 0, "huffman/src/lib.rs")
-        s += "def lits_%s : List Nat := %s\n" % (fn, exlib.lean_nat_list(sorted(constants_of(body, lib, consts, {fn}))))
+        s += "def lits_%s : List Nat := %s\n" % (fn, exlib.lean_nat_list(sorted(v for v in set(constants_of(body, lib, consts, {fn})) if v not in (0, 1))))
     s += "\nend Tw.Gen.Huffman\n"
     return {"Huffman.lean": s}
